@@ -14,12 +14,14 @@ def variant(rng):
         "mut2": rng.random() < 0.5,
         "shape": rng.choice(["chain", "diamond"]),
         "ptrmeth": rng.random() < 0.5,
+        "unsafe": rng.random() < 0.5,
     }
 
 
 def d_src(v):
     al = ["// @packageonly" + ((" " + ", ".join(l)) if l else "") for l in v["allow"]]
-    ls = ["package d", "", "// T is immutable and has constructors.", "// @immutable",
+    ls = ["package d", "", "// PT0 is restricted to its package.", "// @packageonly", "type PT0 struct{ X int }", "",
+          "// T is immutable and has constructors.", "// @immutable",
           "// @constructor " + ", ".join(v["ctors"]), "type T struct {", "\tX  int", "\tXs []int", "\t// @mutable", "\tM int"]
     if v["mut2"]:
         ls += ["\t// @mutable", "\tM2 int"]
@@ -73,7 +75,10 @@ def build(v, sid):
     expect = set()
     pkgs = [{"path": "m/d", "name": "d", "files": [{"name": "d/d.go", "src": d_src(v)}]}]
     # u: uses d; declares its own annotated type and an API that hands out d.T
-    ls = ["package u", "", 'import "m/d"', "", "// UT is u's own immutable type.", "// @immutable", "type UT struct{ X int }", "",
+    # e starts exactly like d (same package-name length): its first declaration has the same offset in its file as d's
+    pkgs.append({"path": "m/e", "name": "e", "files": [{"name": "e/e.go", "src": "package e\n\n// PT0 is restricted to its package.\n// @packageonly\ntype PT0 struct{ X int }\n"}]})
+    ls = ["package u", "", "import ("] + (['\t"unsafe"', ""] if v.get("unsafe") else []) + ['\t"m/d"', '\t"m/e"', ")", ""] + \
+         (["var _ = unsafe.Sizeof(0)", ""] if v.get("unsafe") else []) + ["// UT is u's own immutable type.", "// @immutable", "type UT struct{ X int }", "",
           "// Get hands out a d.T.", "func Get() *d.T { return d.NewT() }", "", "// A3u claims an interface it does not implement.", "// @implements d.I",
           "type A3u struct{}"]
     expect.add(("u/a.go", len(ls), "IMPL03"))
@@ -84,6 +89,10 @@ def build(v, sid):
             expect.add(("u/a.go", len(ls), code))
     ls.append("\tut.X = 1099")
     expect.add(("u/a.go", len(ls), "IMM01"))
+    ls.append("\t_ = d.PT0{X: 1097}")
+    expect.add(("u/a.go", len(ls), "PKGO01"))
+    ls.append("\t_ = e.PT0{X: 1098}")
+    expect.add(("u/a.go", len(ls), "PKGO01"))
     ls += ["}", ""]
     pkgs.append({"path": "m/u", "name": "u", "files": [{"name": "u/a.go", "src": "\n".join(ls) + "\n"}]})
     # w
